@@ -1435,7 +1435,9 @@ func (self *Analyzer) matchExpression(node pAst.MatchExpression) ast.AnalyzedMat
 		containsDefault := false
 		for _, lit := range arm.Literals {
 			if !lit.IsLiteral() {
-				defaultArmSpan = &arm.Range
+				// copy: `arm` is the loop variable, its address is the arm being looked at later
+				span := arm.Range
+				defaultArmSpan = &span
 				// The action has been analyzed above: analyzing it again would report its diagnostics twice
 				// and double the work for every level of nested default arms.
 				defaultArm = &action
